@@ -178,6 +178,32 @@ def scenarios(env):
     env.settle(s)
     out["select_data"] = outcome(lambda: tuple(len(x) for x in env.select([s, env.lst], [], 0)))
     out["read_exact"] = outcome(lambda: (s.recv_into(buf, 8, W), bytes(buf)))
+    # 11 shutdown: fine on a live connection and after the peer's FIN, ENOTCONN after the peer's reset,
+    #    EBADF on a socket closed locally
+    s, c = env.pair()
+    out["shutdown_live"] = outcome(lambda: s.shutdown(real_socket.SHUT_RDWR))
+    env.settle(c)
+    out["shutdown_peer_reads_eof"] = outcome(lambda: c.recv(4, W))
+    s, c = env.pair()
+    c.close()
+    env.settle(s)
+    out["shutdown_after_fin"] = outcome(lambda: s.shutdown(real_socket.SHUT_RDWR))
+    s, c = env.pair()
+    env.rst_close(c)
+    env.settle(s)
+    out["shutdown_after_rst"] = outcome(lambda: s.shutdown(real_socket.SHUT_RDWR))
+    s.close()
+    out["shutdown_closed"] = outcome(lambda: s.shutdown(real_socket.SHUT_RDWR))
+    # 12 MSG_PEEK leaves the data in place; a plain recv returns what is there
+    s, c = env.pair()
+    c.sendall(b"abcde")
+    env.settle(s)
+    out["peek"] = outcome(lambda: s.recv(3, real_socket.MSG_PEEK))
+    out["peek_again_more"] = outcome(lambda: s.recv(16, real_socket.MSG_PEEK))
+    out["plain_recv_partial"] = outcome(lambda: s.recv(16))
+    c.close()
+    env.settle(s)
+    out["peek_at_eof"] = outcome(lambda: s.recv(3, real_socket.MSG_PEEK))
     env.done()
     return out
 
